@@ -1314,6 +1314,136 @@ func runGate(in []string) (out []string) {
 
 const gateGrace = 25 * time.Millisecond
 
+// stressStall is the watchdog of one STRESS case: when neither a message nor a
+// query has completed for this long the case is a lock-up (observation LOCKUP
+// instead of a hanging harness).  Progress, not total time, is watched, so a
+// slow (race-instrumented, loaded) run is not mistaken for one.
+const stressStall = 6 * time.Second
+
+// runStress: STRESSB|STRESSM <tree> <traffic> <T>x<N>
+// T goroutines each send the (typically failing) message N times while one
+// goroutine keeps querying (direct calls, every 31st through the handler) and
+// every 97th round resets.  All of it must return; afterwards reset, one more
+// send and a query must give the sequential answer.
+func runStress(in []string) (out []string) {
+	defer func() {
+		if r := recover(); r != nil {
+			out = append(out, "PANIC")
+		}
+	}()
+	if len(in) != 4 {
+		return []string{"BADCASE"}
+	}
+	tree, err := parseTree(in[1])
+	if err != nil {
+		return []string{"BADCASE"}
+	}
+	m, err := parseMessage(in[2], 2)
+	if err != nil {
+		return []string{"BADCASE"}
+	}
+	var nt, ni int
+	if _, err := fmt.Sscanf(in[3], "%dx%d", &nt, &ni); err != nil || nt < 1 || nt > 64 || ni < 1 || ni > 1000000 {
+		return []string{"BADCASE"}
+	}
+	if atomic.LoadInt32(&lockups) >= maxLockups {
+		return []string{"BADCASE", "SKIPPED=after-lockups"}
+	}
+	s, st := newSystem(tree, in[0] == "STRESSB")
+	defer s.close()
+	out = append(out, "CFG="+st)
+	if s == nil {
+		return out
+	}
+	req0, res0, err := m.build()
+	if err != nil {
+		return []string{"BADCASE"}
+	}
+	out = append(out, s.bits(m, req0, res0))
+	var wg sync.WaitGroup
+	var stop, panicked int32
+	var sent, queries int64
+	for t := 0; t < nt; t++ {
+		wg.Add(1)
+		go func() {
+			defer wg.Done()
+			defer func() {
+				if r := recover(); r != nil {
+					atomic.StoreInt32(&panicked, 1)
+				}
+			}()
+			req, res, _ := m.build()
+			for i := 0; i < ni; i++ {
+				s.send(m, req, res)
+				atomic.AddInt64(&sent, 1)
+			}
+		}()
+	}
+	var cwg sync.WaitGroup
+	cwg.Add(1)
+	go func() {
+		defer cwg.Done()
+		defer func() {
+			if r := recover(); r != nil {
+				atomic.StoreInt32(&panicked, 1)
+			}
+		}()
+		for k := 1; atomic.LoadInt32(&stop) == 0; k++ {
+			if s.reqv != nil {
+				s.reqv.VerifyRequests()
+			}
+			if s.resv != nil {
+				s.resv.VerifyResponses()
+			}
+			if k%31 == 0 {
+				s.query("Q")
+			}
+			if k%97 == 0 {
+				s.reset("R")
+			}
+			atomic.AddInt64(&queries, 1)
+		}
+	}()
+	finished := make(chan struct{})
+	go func() {
+		wg.Wait()
+		atomic.StoreInt32(&stop, 1)
+		cwg.Wait()
+		close(finished)
+	}()
+	last, lastChange := int64(-1), time.Now()
+watch:
+	for {
+		select {
+		case <-finished:
+			break watch
+		case <-time.After(200 * time.Millisecond):
+		}
+		if cur := atomic.LoadInt64(&sent) + atomic.LoadInt64(&queries); cur != last {
+			last, lastChange = cur, time.Now()
+		} else if time.Since(lastChange) > stressStall {
+			// goroutines stay blocked; the case is over
+			atomic.AddInt32(&lockups, 1)
+			return append(out, fmt.Sprintf("LOCKUP=sent%d.of%d.queries%d", atomic.LoadInt64(&sent), nt*ni, atomic.LoadInt64(&queries)))
+		}
+	}
+	if atomic.LoadInt32(&panicked) == 1 {
+		return append(out, "PANIC")
+	}
+	out = append(out, "Z0="+s.reset("R"))
+	req1, res1, _ := m.build()
+	if r := s.send(m, req1, res1); r != "ok" && r != "nil" {
+		out = append(out, fmt.Sprintf("E%d=%s", m.mid, r))
+	}
+	ts, bad := s.query("Q")
+	if bad != "" {
+		out = append(out, "FQ=!"+bad)
+	} else {
+		out = append(out, "FQ="+s.canon(ts))
+	}
+	return out
+}
+
 func runCase(in []string) []string {
 	if len(in) == 0 {
 		return []string{"BADCASE"}
@@ -1325,8 +1455,35 @@ func runCase(in []string) []string {
 		return runConc(in)
 	case "GATEM", "GATEB":
 		return runGate(in)
+	case "STRESSM", "STRESSB":
+		return runStress(in)
 	}
 	return []string{"BADCASE"}
+}
+
+// caseTimeout bounds any single concurrent case (a lock-up in the code under
+// test must be a verdict, not a hanging harness).
+const caseTimeout = 30 * time.Second
+
+// after this many lock-ups in one process the remaining concurrent cases are
+// skipped (each would cost a full watchdog period)
+const maxLockups = 3
+
+var lockups int32
+
+func runCaseWatchdog(in []string, d time.Duration) []string {
+	if atomic.LoadInt32(&lockups) >= maxLockups {
+		return []string{"BADCASE", "SKIPPED=after-lockups"}
+	}
+	res := make(chan []string, 1)
+	go func() { res <- runCase(in) }()
+	select {
+	case out := <-res:
+		return out
+	case <-time.After(d):
+		atomic.AddInt32(&lockups, 1)
+		return []string{"CFG=ok", "LOCKUP=case-did-not-finish"}
+	}
 }
 
 // ------------------------------------------------- race-detecting child
@@ -1386,7 +1543,7 @@ func childMain() {
 			continue
 		}
 		before := size()
-		out := runCase(cs.In)
+		out := runCaseWatchdog(cs.In, caseTimeout)
 		if raceEnabled {
 			out = append(out, "RACEDET=on")
 		} else {
